@@ -31,6 +31,15 @@ ENCODED = [
     "mitmproxy.proxy.layers.http._http1:Http1Client.send",
 ]
 
+ENCODED_E2E = ENCODED[4:] + [
+    "mitmproxy.net.http.http1.read:read_request_head", "mitmproxy.net.http.http1.read:read_response_head",
+    "mitmproxy.net.http.http1.assemble:assemble_response_head", "mitmproxy.proxy.layers.http._http1:Http1Server.send",
+    "mitmproxy.proxy.layers.http._http1:Http1Client.read_headers", "mitmproxy.proxy.layers.http._http1:Http1Connection.mark_done",
+    "mitmproxy.proxy.layers.http._http1:make_body_reader", "mitmproxy.proxy.layers.http:HttpStream.check_invalid",
+    "mitmproxy.proxy.layers.http:HttpStream.state_consume_request_body", "mitmproxy.proxy.layers.http:HttpStream.send_response",
+    "mitmproxy.http:Message.set_content",
+]
+
 VAL = "mitmproxy/net/http/validate.py"
 TCHAR = "!#$%&'*+-.^_`|~"
 
@@ -189,10 +198,10 @@ def h_table(X, K):
 # ------------------------------------------------------------------------------------------
 # end-to-end differential through the real HttpLayer (DESIGN "A-obligation 2")
 #
-# Every varying element (header lines, method, version, body encoding, chunk split, addon edit,
-# pipelining) is a solver-enumerated selector; the real layer stack runs natively on the realised
-# stream.  Oracle: vf/refs/http1ref.py parses (a) the client input, to know what an RFC 9112 recipient
-# would have read / had to reject, and (b) everything mitmproxy wrote to the peers.
+# Every varying element (header lines, method, version, status, body encoding, chunk split, addon
+# edit, pipelining) is a solver-enumerated selector; the real layer stack runs natively on the
+# realised stream.  Oracle: vf/refs/http1ref.py parses (a) the peer's input, to know what an RFC 9112
+# recipient would have read / had to reject, and (b) everything mitmproxy wrote to the other peer.
 
 _E2E_OPTS = None
 
@@ -204,7 +213,7 @@ def _opts():
     return _E2E_OPTS
 
 
-# raw header lines (no terminating CRLF); "{n}" = length of the body that follows
+# raw header lines (no terminating CRLF)
 REQ_LINES = [
     b"Content-Length: 3", b"content-length: 3", b"Content-Length: 03", b"Content-Length: +3", b"Content-Length: 3, 3",
     b"Content-Length: 5", b"Content-Length : 3", b"Content-Length:\r\n 3",
@@ -213,14 +222,17 @@ REQ_LINES = [
     b"X-Other: v", b"X-Fold: a\r\n b", b"X-Cr: a\rTransfer-Encoding: chunked", b"X-Nul: a\x00b",
     b"Connection: close", b"Expect: 100-continue",
 ]
-REQ_LINES_QUICK = [0, 1, 2, 4, 5, 6, 8, 9, 10, 11, 13, 14, 15, 16, 17, 18, 19]
+REQ_LINES_QUICK = [0, 1, 4, 5, 6, 8, 9, 10, 13, 15, 16, 18, 19]
 
 RESP_LINES = [
     b"Content-Length: 3", b"Content-Length: 03", b"Content-Length: 3, 3", b"Content-Length: 5", b"Content-Length : 3",
     b"Transfer-Encoding: chunked", b"Transfer-Encoding: gzip, chunked", b"Transfer-Encoding: gzip", b"Transfer-Encoding: chunked, gzip",
     b"Transfer-Encoding: xchunked", b"X-Other: v", b"X-Fold: a\r\n b", b"X-Cr: a\rContent-Length: 0", b"Connection: close",
 ]
-RESP_LINES_QUICK = [0, 2, 3, 4, 5, 6, 7, 9, 10, 11, 12, 13]
+RESP_LINES_QUICK = [0, 3, 5, 7, 11, 12, 13]
+
+BODY_KINDS_QUICK = ["none", "raw3", "chunk1", "chunk-split", "chunk-trailer", "raw5"]
+BODY_KINDS = BODY_KINDS_QUICK + ["chunk-ext", "chunk-hex", "chunk-barelf", "chunk-badterm", "chunk-lead0", "chunk3"]
 
 
 def _chunked(parts, ext=b"", trailer=b"", eol=b"\r\n"):
@@ -230,10 +242,7 @@ def _chunked(parts, ext=b"", trailer=b"", eol=b"\r\n"):
 def _body_bytes(X, tier):
     """bytes following the head, chosen independently of the header fields (so that raw bytes after a
     chunked head, chunked bytes after a Content-Length head etc. are all covered)"""
-    kinds = ["none", "raw3", "chunk1", "chunk-split", "chunk-ext", "chunk-trailer", "chunk-hex", "raw5"]
-    if tier != "quick":
-        kinds += ["chunk-barelf", "chunk-badterm", "chunk-lead0", "chunk3"]
-    k = X.choose("body", kinds)
+    k = X.choose("body", BODY_KINDS_QUICK if tier == "quick" else BODY_KINDS)
     if k == "none":
         return k, b""
     if k == "raw3":
@@ -314,15 +323,13 @@ def _resp_snapshot(f):
             "method": bytes(f.request.data.method)}
 
 
-REQ_EDITS = ["none", "content", "add-header", "delete-cl", "raw-content"]
+REQ_EDITS = ["none", "content", "add-header", "delete-cl"]
 RESP_EDITS = ["none", "content", "add-header", "delete-cl", "delete-te"]
 
 
 def _apply_edit(msg, edit):
     if edit == "content":
-        msg.content = b"edited-body!"  # documented way to replace a body: different length than any menu body
-    elif edit == "raw-content":
-        msg.raw_content = b"edited-body!"
+        msg.content = b"edited-body!"  # the documented way to replace a body; length differs from every menu body
     elif edit == "add-header":
         msg.headers.add("X-Added", "1")
     elif edit == "delete-cl":
@@ -335,36 +342,24 @@ OK200 = b"HTTP/1.1 200 OK\r\nContent-Length: 2\r\n\r\nok"
 MARK = b"GET http://example.com/marker HTTP/1.1\r\nHost: example.com\r\n\r\n"
 
 
-def h_e2e_request(X, K, tier):
-    """client stream = solver-built request [+ pipelined marker request]; server answers every forwarded
-    request with a fixed 200.  Everything written to the server must parse (reference) to exactly the
-    flows seen in the `request` hook, after addon edits."""
-    menu = REQ_LINES if tier != "quick" else [REQ_LINES[i] for i in REQ_LINES_QUICK]
-    method = X.choose("method", [b"POST", b"GET"])
-    version = X.choose("version", [b"HTTP/1.1", b"HTTP/1.0"])
-    lines = [b"Host: example.com"]
-    for _ in range(X.choose("nfields", K + 1)):
-        lines.append(X.choose("line", menu))
-    bkind, body = _body_bytes(X, tier)
-    head = method + b" http://example.com/first " + version + b"\r\n" + b"".join(l + b"\r\n" for l in lines) + b"\r\n"
-    pipelined = X.boolean("pipelined")
-    stream = head + body + (MARK if pipelined else b"")
+class _Fail(Exception):
+    def __init__(self, check, msg):
+        super().__init__(check)
+        self.check, self.msg = check, msg
 
-    # what an RFC 9112 recipient reads from the same input
-    ref_in, ref_left, ref_err = http1ref.parse_stream(stream, "request", eof=True)
+
+def _req_exchange(stream, head, edit_of, labels):
+    """runs one client stream through the real layer; raises _Fail(check-class, text) on the first failed comparison"""
+    ref_in, _, ref_err = http1ref.parse_stream(stream, "request", eof=True)
     ref_cat = _errcat(ref_err)
-
-    seen = []  # snapshots taken in the `request` hook, after the addon edit
-    pre = []  # ... before the edit (what mitmproxy read from the wire)
-    edits = []
+    seen, pre = [], []  # snapshots taken in the `request` hook after / before the addon edit
 
     def on_hook(hook):
         if hook.name == "request":
             f = hook.args()[0]
             pre.append(_req_snapshot(f))
-            e = X.choose("edit", REQ_EDITS) if f.request.data.path == b"/first" else "none"
-            _apply_edit(f.request, e)
-            edits.append(e)
+            if f.request.data.path == b"/first":
+                _apply_edit(f.request, edit_of())
             seen.append(_req_snapshot(f))
         return True
 
@@ -373,7 +368,7 @@ def h_e2e_request(X, K, tier):
     answered = 0
     try:
         d.data(run.ctx.client, stream)
-        while answered < len(seen):
+        while answered < len(seen):  # the server answers every forwarded request
             srv = seen[answered]["flow"].server_conn
             answered += 1
             if srv.connected:
@@ -382,77 +377,132 @@ def h_e2e_request(X, K, tier):
         for s in list(d.opened):
             d.close(s)
     except NotImplementedError as e:
-        X.reach("crash-notimplemented")
-        X.fail(f"C01/e2e/request/layer-raises-NotImplementedError/{bkind}", f"client bytes {stream!r} make the HTTP layer raise: {e}")
-    X.reach("ran")
-    etag = "" if all(e == "none" for e in edits) else "/edit=" + "+".join(e for e in edits if e != "none")
+        labels.add("crash-notimplemented")
+        raise _Fail("layer-raises-NotImplementedError", f"client bytes {stream!r} make the HTTP layer raise NotImplementedError: {e}")
+    labels.add("ran")
+    rec_txt = [(s_["method"], s_["path"], s_["fields"], s_["body"]) for s_ in seen]
 
     # (1) ambiguous framing must be rejected, and nothing after the rejected message may be processed
-    first_rejected = ref_cat.startswith("framing") and len(ref_in) == 0
-    if first_rejected:
-        X.reach("ref-rejects")
-        X.check(not seen, f"C01/e2e/request/ambiguous-forwarded/{ref_cat}", f"reference rejects {head!r} ({ref_err}) but mitmproxy processed {[(s['method'], s['path']) for s in seen]}")
+    if ref_cat.startswith("framing") and not ref_in:
+        labels.add("ref-rejects")
+        if seen:
+            raise _Fail("ambiguous-forwarded/" + ref_cat, f"reference rejects {head!r} ({ref_err}) but mitmproxy processed {rec_txt}")
     # (2) where the reference reads the input successfully, mitmproxy (possibly stricter = a shorter prefix)
     #     must have read the same messages
     if ref_err is None:
-        X.check(len(pre) <= len(ref_in), "C01/e2e/request/input-desync/extra-message", f"{stream!r}: mitmproxy read {len(pre)} requests, reference {len(ref_in)}")
+        if len(pre) > len(ref_in):
+            raise _Fail("input-desync/extra-message", f"{stream!r}: mitmproxy read {len(pre)} requests, reference {len(ref_in)}")
         for got, exp in zip(pre, ref_in):
-            X.check(got["method"] == exp.method and got["body"] == exp.body and _same_fields(exp.fields, got["fields"]),
-                    "C01/e2e/request/input-desync/message-differs", f"{stream!r}: mitmproxy read {got['method']!r} {got['fields']} body={got['body']!r}; reference {exp!r}")
+            # (mitmproxy answers "Expect: 100-continue" itself and removes the field: not part of the message any more)
+            exp_fields = [(n, v) for n, v in exp.fields if n.lower() != b"expect"]
+            got_fields = [(n, v) for n, v in got["fields"] if n.lower() != b"expect"]
+            if not (got["method"] == exp.method and got["body"] == exp.body and _same_fields(exp_fields, got_fields)):
+                raise _Fail("input-desync/message-differs", f"{stream!r}: mitmproxy read {got['method']!r} {got['fields']} body={got['body']!r}; reference {exp!r}")
         if len(pre) == len(ref_in) and pre:
-            X.reach("input-agrees")
+            labels.add("input-agrees")
 
     # (3) the property: bytes forwarded upstream parse to exactly the recorded flows
     out = []
     for s, data in run.server_bytes():
         msgs, left, err = http1ref.parse_stream(data, "request", eof=True)
-        X.check(err is None, f"C01/e2e/request/forwarded-unparseable/{_errcat(err)}{etag}",
-                f"client sent {stream!r}; forwarded bytes {data!r} do not parse: {err}; parsed so far {msgs}, recorded flows {[(s_['method'], s_['path'], s_['fields'], s_['body']) for s_ in seen]}")
+        if err is not None:
+            raise _Fail("forwarded-unparseable/" + _errcat(err), f"client sent {stream!r}; forwarded bytes {data!r} do not parse: {err}; parsed so far {msgs}, recorded flows {rec_txt}")
         out += msgs
-    X.check(len(out) == len(seen), f"C01/e2e/request/count{etag}",
-            f"client sent {stream!r}; upstream parser reads {len(out)} requests {out}, mitmproxy recorded {len(seen)}: {[(s_['method'], s_['path'], s_['fields'], s_['body']) for s_ in seen]}")
+    if len(out) != len(seen):
+        raise _Fail("count", f"client sent {stream!r}; upstream parser reads {len(out)} requests {out}, mitmproxy recorded {len(seen)}: {rec_txt}")
     for m, s in zip(out, seen):
         tgt_ok = m.target == s["path"] or (s["authority"] and m.target == s["scheme"] + b"://" + s["authority"] + s["path"])
-        X.check(m.method == s["method"] and tgt_ok, f"C01/e2e/request/line{etag}", f"forwarded {m.method!r} {m.target!r} vs recorded {s['method']!r} {s['path']!r}")
-        X.check(_same_fields(m.fields, s["fields"]), f"C01/e2e/request/fields{etag}", f"forwarded fields {m.fields} vs recorded {list(s['fields'])}")
-        X.check(m.body == (s["body"] or b""), f"C01/e2e/request/body{etag}", f"forwarded body {m.body!r} (framing {m.framing}) vs recorded {s['body']!r}; forwarded bytes {run.server_bytes()[0][1]!r}")
-        X.check(not m.trailers, f"C01/e2e/request/trailers{etag}", f"forwarded trailers {m.trailers}")
+        if not (m.method == s["method"] and tgt_ok):
+            raise _Fail("line", f"forwarded {m.method!r} {m.target!r} vs recorded {s['method']!r} {s['path']!r}")
+        if not _same_fields(m.fields, s["fields"]):
+            raise _Fail("fields", f"forwarded fields {m.fields} vs recorded {list(s['fields'])}")
+        if m.body != (s["body"] or b""):
+            raise _Fail("body", f"forwarded body {m.body!r} (framing {m.framing}) vs recorded {s['body']!r}; forwarded bytes {run.server_bytes()[0][1]!r}")
+        if m.trailers:
+            raise _Fail("trailers", f"forwarded trailers {m.trailers}")
     if seen:
-        X.reach("forwarded")
+        labels.add("forwarded")
+    else:
+        labels.add("rejected")
     if len(seen) == 2:
-        X.reach("forwarded-pipelined")
-    if etag and seen:
+        labels.add("forwarded-pipelined")
+    # (4) what the client got back is well-framed too (a mitmproxy error page that ends the connection is
+    #     accepted without looking at what follows it)
+    raw = d.sent_to(run.ctx.client)
+    cm, cleft, cerr = http1ref.parse_stream(raw, "response", [s["method"] for s in seen] + [b"GET"] * 2, eof=True)
+    if cerr is not None and not (cm and _is_error_page(cm[-1])):
+        raise _Fail("client-side-unparseable/" + _errcat(cerr), f"client sent {stream!r}; bytes returned to the client {raw!r}: {cerr}")
+    return seen
+
+
+def _is_error_page(m):
+    hl = m.header_list()
+    return m.status >= 400 and any(n == b"server" and v.startswith(b"mitmproxy") for n, v in hl) and (b"connection", b"close") in hl
+
+
+def _judge(X, side, exchange, choose_edit, ctx_tag=""):
+    """run the exchange with the solver-chosen edit; if it fails after an edit, re-run the same exchange
+    without the edit to class the violation (key) by its cause: the input alone, or the addon edit"""
+    labels = set()
+    chosen = []
+
+    def edit_of():
+        chosen.append(choose_edit())
+        return chosen[-1]
+
+    try:
+        exchange(edit_of, labels)
+        fail = None
+    except _Fail as f:
+        fail = f
+    for l in labels:
+        X.reach(l)
+    edited = [e for e in chosen if e != "none"]
+    if edited and "forwarded" in labels or "relayed" in labels and edited:
         X.reach("edited")
-    # (4) what the client got back is well-framed too (error pages included)
-    cm, cleft, cerr = http1ref.parse_stream(d.sent_to(run.ctx.client), "response", [s["method"] for s in seen] + [b"GET"] * 2, eof=True)
-    X.check(cerr is None, f"C01/e2e/request/client-side-unparseable/{_errcat(cerr)}", f"client sent {stream!r}; bytes returned to the client {d.sent_to(run.ctx.client)!r}: {cerr}")
-    if not seen:
-        X.reach("rejected")
+    if fail is None:
+        return
+    # violation class (key).  Header-syntax pass-through is one class whatever else happens on the path;
+    # a failure that only appears with an addon edit is classed by the edit; else by the failed comparison.
+    if "ctl-in-line" in fail.check or "obs-fold" in fail.check:
+        key = f"C01/e2e/{side}/forwards-{fail.check.rsplit('/', 1)[-1]}"
+    else:
+        by_edit = False
+        if edited:
+            try:
+                exchange(lambda: "none", set())
+                by_edit = True
+            except _Fail as f0:
+                by_edit = f0.check != fail.check
+        if by_edit:
+            key = f"C01/e2e/{side}/after-edit/{edited[0]}"
+        elif ctx_tag:
+            key = f"C01/e2e/{side}/{ctx_tag}"
+        else:
+            key = f"C01/e2e/{side}/{fail.check}"
+    X.fail(key, fail.msg)
 
 
-def h_e2e_response(X, K, tier):
-    """one or two fixed requests; the server's reply to the first is solver-built.  Everything relayed to
-    the client must parse (reference, in the context of the request methods) to exactly the responses
-    seen in the `response` hook after addon edits; ambiguous responses must not be relayed."""
-    menu = RESP_LINES if tier != "quick" else [RESP_LINES[i] for i in RESP_LINES_QUICK]
-    method = X.choose("method", [b"GET", b"HEAD"])
+def h_e2e_request(X, K, tier):
+    """client stream = solver-built request [+ pipelined marker request]; server answers every forwarded
+    request with a fixed 200.  Everything written to the server must parse (reference) to exactly the
+    flows seen in the `request` hook, after addon edits."""
+    menu = REQ_LINES if tier != "quick" else [REQ_LINES[i] for i in REQ_LINES_QUICK]
+    method = X.choose("method", [b"POST", b"GET"] if tier != "quick" else [b"POST"])
     version = X.choose("version", [b"HTTP/1.1", b"HTTP/1.0"])
-    status = X.choose("status", [200, 204, 304, 100])
-    lines = []
+    lines = [b"Host: example.com"]
     for _ in range(X.choose("nfields", K + 1)):
         lines.append(X.choose("line", menu))
     bkind, body = _body_bytes(X, tier)
-    then_close = X.boolean("server_closes")  # needed to terminate read-until-close bodies
-    head = version + b" %d Status\r\n" % status + b"".join(l + b"\r\n" for l in lines) + b"\r\n"
-    resp1 = head + body
-    pipelined = X.boolean("pipelined")
+    head = method + b" http://example.com/first " + version + b"\r\n" + b"".join(l + b"\r\n" for l in lines) + b"\r\n"
+    stream = head + body + (MARK if X.boolean("pipelined") else b"")
+    _judge(X, "request", lambda edit_of, labels: _req_exchange(stream, head, edit_of, labels), lambda: X.choose("edit", REQ_EDITS))
+
+
+def _resp_exchange(method, status, resp1, head, pipelined, edit_of, labels):
     req1 = method + b" http://example.com/first HTTP/1.1\r\nHost: example.com\r\n\r\n"
     stream = req1 + (MARK if pipelined else b"")
-
-    ref_in, _, ref_err = http1ref.parse_stream(resp1, "response", [method], eof=then_close)
-    ref_cat = _errcat(ref_err)
-
-    reqs, seen, pre, edits, errors = [], [], [], [], []
+    reqs, seen, pre, errors = [], [], [], []
 
     def on_hook(hook):
         f = hook.args()[0]
@@ -460,9 +510,8 @@ def h_e2e_response(X, K, tier):
             reqs.append(f)
         elif hook.name == "response":
             pre.append(_resp_snapshot(f))
-            e = X.choose("edit", RESP_EDITS) if f.request.data.path == b"/first" else "none"
-            _apply_edit(f.response, e)
-            edits.append(e)
+            if f.request.data.path == b"/first":
+                _apply_edit(f.response, edit_of())
             seen.append(_resp_snapshot(f))
         elif hook.name == "error":
             errors.append(f)
@@ -471,70 +520,117 @@ def h_e2e_response(X, K, tier):
     run = _Run(on_hook)
     d = run.d
     answered = 0
+    closed_after = False
     try:
         d.data(run.ctx.client, stream)
         while answered < len(reqs):
             f = reqs[answered]
             srv = f.server_conn
-            first = f.request.data.path == b"/first"
             answered += 1
             if srv.connected:
-                d.data(srv, resp1 if first else OK200)
-                if first and then_close:
-                    d.close(srv)
+                if f.request.data.path == b"/first":
+                    d.data(srv, resp1)
+                    if not (f.response and f.response.timestamp_end) and not f.error:
+                        # server model: a reply that is not complete by itself is terminated by closing the connection
+                        closed_after = True
+                        d.close(srv)
+                else:
+                    d.data(srv, OK200)
         d.close(run.ctx.client)
         for s in list(d.opened):
             d.close(s)
     except NotImplementedError as e:
-        X.reach("crash-notimplemented")
-        X.fail(f"C01/e2e/response/layer-raises-NotImplementedError/{bkind}", f"server bytes {resp1!r} make the HTTP layer raise: {e}")
-    X.reach("ran")
-    etag = "" if all(e == "none" for e in edits) else "/edit=" + "+".join(e for e in edits if e != "none")
+        labels.add("crash-notimplemented")
+        raise _Fail("layer-raises-NotImplementedError", f"server bytes {resp1!r} make the HTTP layer raise NotImplementedError: {e}")
+    labels.add("ran")
+    ref_in, _, ref_err = http1ref.parse_stream(resp1, "response", [method], eof=closed_after)
+    ref_cat = _errcat(ref_err)
     first_seen = [s for s in seen if s["flow"].request.data.path == b"/first"]
+    rec_txt = [(s["status"], s["fields"], s["body"]) for s in seen]
 
     if ref_cat.startswith("framing") and not ref_in:
-        X.reach("ref-rejects")
-        X.check(not first_seen, f"C01/e2e/response/ambiguous-relayed/{ref_cat}", f"reference rejects {head!r} ({ref_err}) but mitmproxy relayed it")
+        labels.add("ref-rejects")
+        if first_seen:
+            raise _Fail("ambiguous-relayed/" + ref_cat, f"reference rejects {head!r} ({ref_err}) but mitmproxy relayed it")
     if ref_err is None and first_seen and ref_in and not (100 <= status <= 199):
         got, exp = [p for p in pre if p["flow"] is first_seen[0]["flow"]][0], ref_in[0]
-        X.check(got["status"] == exp.status and (got["body"] or b"") == exp.body and _same_fields(exp.fields, got["fields"]),
-                "C01/e2e/response/input-desync/message-differs", f"server sent {resp1!r} (to {method!r}): mitmproxy read {got['status']} {got['fields']} body={got['body']!r}; reference {exp!r}")
-        X.reach("input-agrees")
+        if not (got["status"] == exp.status and (got["body"] or b"") == exp.body and _same_fields(exp.fields, got["fields"])):
+            raise _Fail("input-desync/message-differs", f"server sent {resp1!r} (to {method!r}): mitmproxy read {got['status']} {got['fields']} body={got['body']!r}; reference {exp!r}")
+        labels.add("input-agrees")
 
     raw = d.sent_to(run.ctx.client)
     cm, cleft, cerr = http1ref.parse_stream(raw, "response", [f.request.data.method for f in reqs] + [b"GET"] * 2, eof=True)
-    ctx_txt = f"request {method!r}, server sent {resp1!r}{' then closed' if then_close else ''}; relayed to client: {raw!r}"
-    X.check(cerr is None, f"C01/e2e/response/relayed-unparseable/{_errcat(cerr)}{etag}", f"{ctx_txt}: {cerr}; parsed so far {cm}")
-    # mitmproxy-generated error pages (for flows that ended in `error`) are not flow responses
+    ctx_txt = f"request {method!r}, server sent {resp1!r}{' then closed' if closed_after else ''}; relayed to client: {raw!r}"
+    # a mitmproxy-generated error page that ends the connection is not a flow response; what follows its
+    # head on the closing connection is not judged (weaker reading: HEAD + error page with a body)
     relayed = list(cm)
-    if errors and relayed and relayed[-1].status >= 400 and any(n.lower() == b"server" and v.startswith(b"mitmproxy") for n, v in relayed[-1].fields):
+    if errors and relayed and _is_error_page(relayed[-1]):
         relayed.pop()
-    X.check(len(relayed) == len(seen), f"C01/e2e/response/count{etag}", f"{ctx_txt}: client parser reads {len(relayed)} responses {relayed}, mitmproxy recorded {[(s['status'], s['fields'], s['body']) for s in seen]}")
+    elif cerr is not None:
+        raise _Fail("relayed-unparseable/" + _errcat(cerr), f"{ctx_txt}: {cerr}; parsed so far {cm}; recorded {rec_txt}")
+    if len(relayed) != len(seen):
+        raise _Fail("count", f"{ctx_txt}: client parser reads {len(relayed)} responses {relayed}, mitmproxy recorded {rec_txt}")
     for m, s in zip(relayed, seen):
-        X.check(m.status == s["status"], f"C01/e2e/response/status{etag}", f"{ctx_txt}: relayed status {m.status} vs recorded {s['status']}")
-        X.check(_same_fields(m.fields, s["fields"]), f"C01/e2e/response/fields{etag}", f"{ctx_txt}: relayed fields {m.fields} vs recorded {list(s['fields'])}")
+        if m.status != s["status"]:
+            raise _Fail("status", f"{ctx_txt}: relayed status {m.status} vs recorded {s['status']}")
+        if not _same_fields(m.fields, s["fields"]):
+            raise _Fail("fields", f"{ctx_txt}: relayed fields {m.fields} vs recorded {list(s['fields'])}")
         no_body_ctx = s["method"] == b"HEAD" or s["status"] in (204, 304) or 100 <= s["status"] <= 199
-        if not no_body_ctx:  # in a no-body context the recorded body cannot be represented on the wire at all
-            X.check(m.body == (s["body"] or b""), f"C01/e2e/response/body{etag}", f"{ctx_txt}: relayed body {m.body!r} (framing {m.framing}) vs recorded {s['body']!r}")
-        X.check(not m.trailers, f"C01/e2e/response/trailers{etag}", f"relayed trailers {m.trailers}")
+        # (in a no-body context the recorded body cannot be represented on the wire at all: only framing is judged)
+        if not no_body_ctx and m.body != (s["body"] or b""):
+            raise _Fail("body", f"{ctx_txt}: relayed body {m.body!r} (framing {m.framing}) vs recorded {s['body']!r}")
+        if m.trailers:
+            raise _Fail("trailers", f"relayed trailers {m.trailers}")
     if first_seen:
-        X.reach("relayed")
+        labels.add("relayed")
         if method == b"HEAD" or status in (204, 304):
-            X.reach("relayed-nobody-context")
+            labels.add("relayed-nobody-context")
     if len(seen) == 2:
-        X.reach("relayed-pipelined")
-    if etag and seen:
-        X.reach("edited")
+        labels.add("relayed-pipelined")
     if errors:
-        X.reach("rejected")
+        labels.add("rejected")
+
+
+def h_e2e_response(X, K, tier):
+    """one or two fixed requests; the server's reply to the first is solver-built.  Everything relayed to
+    the client must parse (reference, in the context of the request methods) to exactly the responses
+    seen in the `response` hook after addon edits; ambiguous responses must not be relayed."""
+    quick = tier == "quick"
+    menu = RESP_LINES if not quick else [RESP_LINES[i] for i in RESP_LINES_QUICK]
+    method = X.choose("method", [b"GET", b"HEAD"])
+    version = X.choose("version", [b"HTTP/1.1"] if quick else [b"HTTP/1.1", b"HTTP/1.0"])
+    status = X.choose("status", [200, 204, 304, 100])
+    lines = []
+    for _ in range(X.choose("nfields", K + 1)):
+        lines.append(X.choose("line", menu))
+    bkind, body = _body_bytes(X, tier)
+    head = version + b" %d Status\r\n" % status + b"".join(l + b"\r\n" for l in lines) + b"\r\n"
+    pipelined = X.boolean("pipelined")
+    edits = RESP_EDITS[:4] if quick else RESP_EDITS
+    # an interim (1xx) status is a class of its own: mitmproxy records it as the flow's final response
+    _judge(X, "response", lambda edit_of, labels: _resp_exchange(method, status, head + body, head, pipelined, edit_of, labels),
+           lambda: X.choose("edit", edits), ctx_tag="interim-1xx-recorded-as-final" if 100 <= status <= 199 else "")
 
 
 def obligations(tier):
     k = 2 if tier == "quick" else 3
+    ke = 2  # header slots besides Host (the thorough tier widens menus, methods, versions and body encodings instead)
+    nreq = len(REQ_LINES_QUICK) if tier == "quick" else len(REQ_LINES)
+    nresp = len(RESP_LINES_QUICK) if tier == "quick" else len(RESP_LINES)
     return [
         Smt("regex-languages", _build_regex_queries, bounds="all strings (unbounded length) over bytes/unicode without CR/LF; z3 regex inclusion both directions",
             encoded=ENCODED[:3]),
         Smt("te-set", _build_te_queries, bounds="all strings; accepted set lifted from the TransferEncoding literal", encoded=ENCODED[2:3]),
         Symx("framing-table", lambda X: h_table(X, k), bounds=f"header lists of <= {k} fields from a {len(FIELDS)}-entry menu ({len(CL_VALUES)} Content-Length shapes, {len(TE_VALUES)} Transfer-Encoding values, case variants, invalid names), request/response, HTTP/1.0/1.1, methods GET/POST/HEAD/CONNECT, status 100/200/204/304",
              encoded=ENCODED[:4], must_reach=["decided", "accepted"], parallel_depth=4),
+        Symx("e2e-request", lambda X: h_e2e_request(X, ke, tier),
+             bounds=f"client stream = 1 request ({'POST' if tier == 'quick' else 'POST/GET'}, HTTP/1.1/1.0, Host + <= {ke} header lines from a {nreq}-line menu incl. CL/TE shapes, obs-fold, bare CR, NUL, "
+                    f"Expect, Connection: close) followed by one of {8 if tier == 'quick' else 12} body encodings (raw, chunked with every chunk split of a 5-byte body, extension, trailer, hex size...) "
+                    "chosen independently of the head, optionally a pipelined second request; addon edit in the request hook from "
+                    f"{REQ_EDITS}; server answers each forwarded request with a fixed 200; whole stream in one segment (segmentation is C02)",
+             encoded=ENCODED_E2E, must_reach=["ran", "forwarded", "forwarded-pipelined", "edited", "rejected", "ref-rejects", "input-agrees"], parallel_depth=4),
+        Symx("e2e-response", lambda X: h_e2e_response(X, ke, tier),
+             bounds=f"request GET/HEAD [+ pipelined GET]; server reply to the first = {'HTTP/1.1' if tier == 'quick' else 'HTTP/1.1/1.0'}, status 200/204/304/100, <= {ke} header lines from a {nresp}-line menu, "
+                    f"one of {len(BODY_KINDS_QUICK) if tier == 'quick' else len(BODY_KINDS)} body encodings; server closes after a reply that is not self-delimiting; addon edit in the response hook from {RESP_EDITS[:4] if tier == 'quick' else RESP_EDITS}",
+             encoded=ENCODED_E2E, must_reach=["ran", "relayed", "relayed-nobody-context", "relayed-pipelined", "edited", "rejected", "ref-rejects", "input-agrees"], parallel_depth=4),
     ]
